@@ -474,7 +474,10 @@ class IncompleteHashTree(CompleteBinaryTreeMixin, list):
                     this_level.discard(siblingnum)
             # we're done!
 
-        except (BadHashError, NotEnoughHashesError):
+        except (BadHashError, NotEnoughHashesError, IndexError):
+            # IndexError: a hash number that does not fit in this tree. The
+            # hashes that were provisionally added before we met it have not
+            # been validated and must be forgotten like in the other cases.
             for i in remove_upon_failure:
                 self[i] = None
             raise
